@@ -72,6 +72,12 @@ def base_input(rng):
             r = rng.random()
             if r < 0.5:
                 l = '\x1b[' + rng.choice(seqs) + 'm' + l + rng.choice(['\x1b[m', '\x1b[0m', '', '\x1b[' + rng.choice(seqs) + 'm'])
+            elif r < 0.68 and l[:1] in ('-', '+', ' '):
+                # a hunk line in colours of its own (kept raw by delta) with a C0 control character inside a sequence: terminals
+                # and parsers execute / skip it and go on with the sequence
+                ctl = rng.choice(['\t', '\t', '\x08', '\r', '\x0b', '\x07', '\x00'])
+                seq = rng.choice(['3%s5', '%s35', '35%s', '38;5;%s13', '1;%s;35', '38;2;1;%s2;3'])
+                l = '\x1b[35m' + l[:1] + '\x1b[m' + '\x1b[' + (seq % ctl) + 'm' + l[1:] + '\x1b[m'
             elif r < 0.6:
                 j = rng.randrange(len(l) + 1)
                 l = l[:j] + rng.choice(['\x1b[?25l', '\x1b[2J', '\x1b[1;1H', '\x1b[38:5:1', '\x1b[', '\x1b', '\x9b31m', '\x1b]0;title\x07', '\x1b]8;;x\x1b\\',
